@@ -11,8 +11,9 @@ CONSTANTS
   KnownGaps = {}
   Variants = {"L1", "L1e", "Lbad"}
   Variants2 = {}
-  StartOffs = {1, 3}
-  EndOffs = {1, 3}
+  StartOffs = {0, 2, 4}
+  EndOffs = {0, 2, 4}
+  FixedStart <- Unset
   MaxBatch = 1
   SameInstant = FALSE
   GCPers = {1, 100}
